@@ -723,6 +723,23 @@ func (x *Exec) binop(st *State, op token.Token, av, bv Val, at, bt, rt types.Typ
 	if isTypeParam(at) {
 		isIntT = false
 	}
+	if a.Sort == sortIface && (op == token.EQL || op == token.NEQ) {
+		// comparison with the nil interface: only the dynamic type tag matters
+		zero := mkCtor(sortIface, mkInt(0), mkInt(0))
+		var eq *Term
+		switch {
+		case a == zero:
+			eq = mkEq(mkSel(b, 0), mkInt(0))
+		case b == zero:
+			eq = mkEq(mkSel(a, 0), mkInt(0))
+		default:
+			eq = mkOr(mkAnd(mkEq(mkSel(a, 0), mkInt(0)), mkEq(mkSel(b, 0), mkInt(0))), mkEq(a, b))
+		}
+		if op == token.NEQ {
+			return mkNot(eq)
+		}
+		return eq
+	}
 	if !isIntT || a.Sort != sortInt {
 		switch op {
 		case token.EQL:
@@ -761,9 +778,18 @@ func (x *Exec) binop(st *State, op token.Token, av, bv Val, at, bt, rt types.Typ
 	case token.QUO:
 		x.assert(st, "div", x.env.srcAt(pos), mkNot(mkEq(b, mkInt(0))), pos, nil)
 		if sg {
-			return x.wrapTo(tdiv(a, b), rt)
+			r := x.wrapTo(tdiv(a, b), rt)
+			if !isInt(b) && w > 0 {
+				x.assume(st, inRange(r, w, true))
+			}
+			return r
 		}
-		return mkDiv(a, b)
+		q := mkDiv(a, b)
+		if !isInt(b) {
+			// division by a variable is non-linear for the solver: state its range explicitly
+			x.assume(st, mkAnd(mkLe(mkInt(0), q), mkLe(q, a)))
+		}
+		return q
 	case token.REM:
 		x.assert(st, "div", x.env.srcAt(pos), mkNot(mkEq(b, mkInt(0))), pos, nil)
 		if !isInt(b) {
